@@ -352,3 +352,72 @@ Theorem goaway_first_only_refuted :
   goaway_run [1; 3; 5] [goaway_max; 3] = ([1; 3], [5]) /\
   goaway_run_first_only [1; 3; 5] [goaway_max; 3] = ([1; 3; 5], []).
 Proof. vm_compute. split; reflexivity. Qed.
+
+(* ---------- 8. (round 8) wroteRequest ---------- *)
+
+(* a connection whose write loop has not reported is never recycled, whatever else holds *)
+Theorem unreported_write_never_recycled : forall alive has_body eof saw_eof,
+  recycle_ok (mkRecycle alive has_body eof saw_eof (wrote_request WNotYet)) = false.
+Proof. intros. unfold recycle_ok. simpl. rewrite !andb_false_r. reflexivity. Qed.
+
+Theorem lenient_wrote_request_refuted :
+  recycle_ok (mkRecycle true true true false (wrote_request_lenient WNotYet)) = true.
+Proof. reflexivity. Qed.
+
+(* ---------- 9. (round 8) the connection-level receive window ---------- *)
+
+Fixpoint f_total (n : nat) (b : nat -> nat) : nat :=
+  match n with 0 => 0 | S m => f_total m b + b m end.
+
+Lemma f_total_upd : forall n b i v, i < n -> f_total n (upd b i v) + b i = f_total n b + v.
+Proof.
+  induction n as [|n IH]; intros b i v Hi; [lia|]. simpl. unfold upd at 2.
+  destruct (Nat.eqb_spec n i).
+  - subst. assert (E : f_total i (upd b i v) = f_total i b).
+    { clear. assert (G : forall m, m <= i -> f_total m (upd b i v) = f_total m b).
+      { induction m; intros; simpl; auto. rewrite IHm by lia. unfold upd.
+        destruct (Nat.eqb_spec m i); [lia | reflexivity]. }
+      apply G; lia. }
+    rewrite E. lia.
+  - assert (i < n) by lia. specialize (IH b i v H). lia.
+Qed.
+
+(* window + everything buffered = the initial window, for EVERY sequence of DATA / Read / Close
+   on streams below n in which the peer respects the window: nothing leaks *)
+Theorem conn_window_conserved : forall n evs s,
+  (forall e, In e evs -> match e with FData i _ | FRead i _ | FClose i => i < n end) ->
+  f_respects s evs = true ->
+  let s' := fold_left f_step evs s in
+  f_window s' + f_total n (f_buffered s') = f_window s + f_total n (f_buffered s).
+Proof.
+  intros n evs. induction evs as [|e evs IH]; intros s Hn Hr; simpl in *; [reflexivity|].
+  apply andb_prop in Hr. destruct Hr as [Hr1 Hr2].
+  rewrite IH; auto; [|intros; apply Hn; auto].
+  assert (Hi := Hn e (or_introl eq_refl)). destruct e as [i k|i k|i]; simpl.
+  - apply Nat.leb_le in Hr1. pose proof (f_total_upd n (f_buffered s) i (f_buffered s i + k) Hi). lia.
+  - pose proof (f_total_upd n (f_buffered s) i (f_buffered s i - Nat.min k (f_buffered s i)) Hi).
+    pose proof (Nat.le_min_r k (f_buffered s i)). lia.
+  - pose proof (f_total_upd n (f_buffered s) i 0 Hi). lia.
+Qed.
+
+(* in particular: once every body has been read or closed, the whole window is back *)
+Theorem conn_window_restored : forall n w evs,
+  (forall e, In e evs -> match e with FData i _ | FRead i _ | FClose i => i < n end) ->
+  f_respects (mkFS w (fun _ => 0)) evs = true ->
+  (forall i, i < n -> f_buffered (f_run f_step w evs) i = 0) ->
+  f_window (f_run f_step w evs) = w.
+Proof.
+  intros n w evs Hn Hr Hz. pose proof (conn_window_conserved n evs (mkFS w (fun _ => 0)) Hn Hr) as H.
+  simpl in H. unfold f_run.
+  assert (Z : forall m b, (forall i, i < m -> b i = 0) -> f_total m b = 0).
+  { induction m; intros b Hb; simpl; auto. rewrite IHm by (intros; apply Hb; lia). rewrite Hb; lia. }
+  rewrite (Z n (f_buffered (fold_left f_step evs (mkFS w (fun _ => 0))))) in H by exact Hz.
+  rewrite (Z n (fun _ => 0)) in H by reflexivity. lia.
+Qed.
+
+(* the seeded variant: two bodies closed with 60 bytes buffered each shrink a window of 128 to
+   8 for good *)
+Theorem close_without_refund_refuted :
+  f_window (f_run f_step 128 [FData 0 60; FClose 0; FData 1 60; FClose 1]) = 128 /\
+  f_window (f_run f_step_noreturn 128 [FData 0 60; FClose 0; FData 1 60; FClose 1]) = 8.
+Proof. vm_compute. split; reflexivity. Qed.
